@@ -36,3 +36,30 @@ Lemma new_shrink_on_the_witness (a b c : A) :
   buf (hist_set_size 2 (mkHist 5 [a; b; c])) = [a; b].
 Proof. reflexivity. Qed.
 End Old.
+
+(* ------------------------------------------------------------------ *)
+(* directional_mean's single-column branch BEFORE /repo dee9c81: the one
+   column was returned as it was.  EstimatesExtraction::mean (one particle)
+   and every windowed variant with exactly one stored estimate therefore
+   returned circular components unwrapped: congruent modulo 2 PI, but outside
+   (-PI, PI] whenever the input was.  Kept so that a reintroduction is
+   recognised (the check's corpus has single particles at 7.0 / -9.5 rad). *)
+Require Import Reals Lra.
+Require Import BFL.Ops BFL.C19_ROps BFL.C19_Model.
+Local Open Scope R_scope.
+
+Definition old_dir_mean (S : SOps) (cols : nat) (a : list (list (T S))) (w : list (T S)) : list (T S) :=
+  if Nat.eqb cols 1 then map (fun row => nth 0 row (s0 S)) a
+  else map (fun row => mean_row S row w) a.
+
+(* old statement (C17_mean_circular_on_circle, first version): one particle is returned as it is ... *)
+Lemma old_single_column_as_is (a : R) (w : list R) : old_dir_mean ROps 1 [[a]] w = [a].
+Proof. reflexivity. Qed.
+
+(* ... hence "every circular output lies in (-PI, PI]" was false of the old code *)
+Lemma old_circular_in_range_refuted :
+  exists (a : R) (w : list R), ~ (- PI < nth 0 (old_dir_mean ROps 1 [[a]] w) 0 <= PI).
+Proof.
+  exists 7, [1]. rewrite old_single_column_as_is. cbn [nth]. intros [_ H].
+  pose proof PI_4 as P4. lra.
+Qed.
